@@ -58,6 +58,7 @@ func (c *Ctx) Interp() *sym.Interp {
 				in.InitGlobals(sp)
 			}
 		}
+		in.FreezeGlobals()
 		c.global = in.Global
 	} else {
 		in.Global = c.global
